@@ -99,7 +99,8 @@ theorem decodeMask_spec {it : Item} {k : Nat} (h : it.Regular k) :
       simp only [Option.some.injEq] at hb
       have hle : n ≤ 128 := by have := it.width_le; omega
       have hnz := h.nz
-      simp only [hle, if_true]
+      have hn0 : ¬ n = 0 := by omega
+      simp only [hle, if_true, hn0, decide_false, Bool.false_and, Bool.false_eq_true, if_false]
       rw [applyCidr_clear hwid (by omega) hn hb.symm]
       exact ⟨false, rfl⟩
     · simp at hb
@@ -205,6 +206,14 @@ theorem factoryParse_spec {it : Item} {k : Nat} (h : it.Regular k) :
   have hzero : (0 : Nat) &&& pmask k = 0 := by simp
   have hal : ∀ a, (embed it.fam (blockLo k a)) % 2 ^ k = 0 := by
     intro a; rw [← embed_block hkw]; exact block_aligned
+  have hnr : ∀ a1 a2, (isAnyAddr a2 = false → a1 ≤ a2) → (Gen.IpAcl.rejectsReversedRange && reversed a1 a2) = false := by
+    intro a1 a2 ho
+    unfold reversed
+    by_cases ha : isAnyAddr a2 = true
+    · simp [ha]
+    · have := ho (by simpa using ha)
+      have hm : ¬ matchIPAddr a2 a1 < 0 := by rw [matchIPAddr_neg]; omega
+      simp [hm]
   unfold factoryParse
   simp only [hd, applyMask]
   cases ha2 : it.a2 with
@@ -220,6 +229,7 @@ theorem factoryParse_spec {it : Item} {k : Nat} (h : it.Regular k) :
         simp only; omega
     have hst : it.stored k = ⟨embed it.fam (blockLo k it.a1), 0, pmask k⟩ := by simp [Item.stored, ha2]
     rw [hst]
+    rw [hnr _ _ w.ord]
     refine ⟨_, rfl, w, ?_, ?_⟩
     · rw [Val.first_eq w]; rfl
     · rw [Val.last_eq w]
@@ -237,6 +247,7 @@ theorem factoryParse_spec {it : Item} {k : Nat} (h : it.Regular k) :
     have hst : it.stored k = ⟨embed it.fam (blockLo k it.a1), embed it.fam (blockLo k b), pmask k⟩ := by
       simp [Item.stored, ha2]
     rw [hst]
+    rw [hnr _ _ w.ord]
     refine ⟨_, rfl, w, ?_, ?_⟩
     · rw [Val.first_eq w]; rfl
     · rw [Val.last_eq w]
